@@ -815,7 +815,33 @@ class Walker:
             s = st.copy()
             s.ev("raise", self.site(n), st.env[e.id][1], "reraise")
             return [(s, "raise", Exc(st.env[e.id][1], [self.site(n)], (), "explicit", "re-raise of caught exception"))]
-        exc = self.exc_class_name(cls_node, st)
+        try:
+            exc = self.exc_class_name(cls_node, st)
+        except AnalysisError:
+            exc = None
+        if exc is None or (exc not in self.prog.exc_parents() and not self._is_builtin_exception(exc)):
+            # raise <expression>: an exception object built elsewhere (a stored instance, a factory
+            # call, a field of a record) - evaluate it and raise what it denotes
+            for s, k, v in self.expr(e, st):
+                if k != "val":
+                    outs.append((s, k, v))
+                    continue
+                name = None
+                if isinstance(v, tuple) and v and v[0] == "excobj":
+                    name = v[1]
+                elif isinstance(v, tuple) and len(v) == 2 and v[0] == "global" and v[1].startswith(("builtin:", "class:")):
+                    name = v[1].split(":", 1)[1].split(".")[-1]
+                if name is None:
+                    # a value the analysis cannot see through (a parameter of a helper analysed on
+                    # its own): some exception is raised
+                    s = s.copy()
+                    s.ev("raise", self.site(n), "Exception", "dynamic", ())
+                    outs.append((s, "raise", Exc("Exception", [self.site(n)], (), "dynamic", "raise of a value that is not statically known")))
+                    continue
+                s = s.copy()
+                s.ev("raise", self.site(n), name, "explicit", ())
+                outs.append((s, "raise", Exc(name, [self.site(n)], (), "explicit", "raise " + name)))
+            return outs
         cur, bad = self.seq(args + [k.value for k in (e.keywords if isinstance(e, ast.Call) else [])], st)
         for s_b, k_b, p_b in bad:
             if k_b == "raise":
@@ -827,6 +853,13 @@ class Walker:
             s.ev("raise", self.site(n), exc, "explicit", tuple(ts))
             outs.append((s, "raise", Exc(exc, [self.site(n)], (), "explicit", "raise " + exc)))
         return outs
+
+    @staticmethod
+    def _is_builtin_exception(name):
+        import builtins as _b
+
+        o = getattr(_b, name, None)
+        return isinstance(o, type) and issubclass(o, BaseException)
 
     def exc_class_name(self, node, st):
         chain = dotted_chain(node)
@@ -2061,7 +2094,87 @@ class Walker:
     def e_Call(self, e, st):
         from .calls import call
 
+        f = e.func
+        if isinstance(f, ast.Name) and f.id in ("all", "any") and len(e.args) == 1 and not e.keywords and isinstance(e.args[0], ast.GeneratorExp) and len(e.args[0].generators) == 1 and self._is_module_level(f.id, st) and self.prog.resolve_name(self.mod, f.id)[0] == "builtin":
+            r = self._lazy_anyall(e, f.id, e.args[0], st)
+            if r is not None:
+                return r
         return call(self, e, st)
+
+    def _lazy_anyall(self, e, name, ge, st):
+        """all(E for x in IT if C) / any(...) over a literal table or a generator object: elements
+        are evaluated one after the other and evaluation stops at the first decisive one (the
+        later element expressions are not evaluated at all)"""
+        g = ge.generators[0]
+        if g.is_async:
+            return None
+        outs = []
+        decisive = "true" if name == "any" else "false"
+
+        def per_element(s_c, value):
+            res = []
+            for s0, k0, p0 in self._assign_target(g.target, value, s_c, ge):
+                if k0 != "fall":
+                    res.append((s0, k0, p0))
+                    continue
+                states = [s0]
+                for cnd in g.ifs:
+                    nxt = []
+                    for s1 in states:
+                        for s2, k2, p2 in self.cond(cnd, s1):
+                            if k2 == "true":
+                                nxt.append(s2)
+                            elif k2 == "false":
+                                res.append((s2, "fall", None))
+                            else:
+                                res.append((s2, k2, p2))
+                    states = nxt
+                for s1 in states:
+                    for s2, k2, p2 in self.cond(ge.elt, s1):
+                        if k2 == decisive:
+                            res.append((s2, "break", None))
+                        elif k2 in ("true", "false"):
+                            res.append((s2, "fall", None))
+                        else:
+                            res.append((s2, k2, p2))
+            return res
+
+        for s, k, it in self.expr(g.iter, st):
+            if k != "val":
+                outs.append((s, k, it))
+                continue
+            if isinstance(it, tuple) and len(it) == 3 and it[0] == "gen":
+                for s2, k2, p2 in self._run_generator(it, s, per_element, ge):
+                    if k2 == "break":
+                        outs.append((s2, "val", C(name == "any")))
+                    elif k2 == "exhausted":
+                        outs.append((s2, "val", C(name != "any")))
+                    else:
+                        outs.append((s2, k2, p2))
+                continue
+            items = self.literal_items(it, s)
+            if items is None:
+                return None  # a symbolic iterable: the general comprehension + all()/any() rules apply
+            cur = [s]
+            for item in items:
+                nxt = []
+                for s1 in cur:
+                    for s2, k2, p2 in per_element(s1.copy(), item):
+                        if k2 == "fall":
+                            nxt.append(s2)
+                        elif k2 == "break":
+                            outs.append((s2, "val", C(name == "any")))
+                        else:
+                            outs.append((s2, k2, p2))
+                cur = nxt
+                if len(cur) > PATH_CAP:
+                    raise AnalysisError("path explosion in %s at %s" % (name, self.site(e)))
+            for s1 in cur:
+                outs.append((s1, "val", C(name != "any")))
+        for s2, _k, _p in outs:
+            for nm in _names_of_target(g.target):
+                s2.env.pop(nm, None)
+        return outs
 
 
 _OPS = {
